@@ -9,7 +9,15 @@ of the working tree; per module
  (D) valid frames: the model's DER / UPER are the transport; C decode, re-encode in
      every syntax, round-trip battery; mismatches: identifier without a row,
      identifier of row i with the value of row j (BER, UPER, XER), bit flips and
-     truncations; everything under ASan/UBSan/LSan, the driver restarted after a crash."""
+     truncations; everything under ASan/UBSan/LSan, the driver restarted after a crash;
+ (C) the emitted table itself: the `asn_IOS_*_rows[]` cells and the `asn_VAL_*` constants are
+     read back from the generated C and every identifier cell VALUE is compared with the
+     object set as written (Python's own reading) and with the model's emitted table
+     (OpenTypeCell.emit_table), under every option set that changes the representation of
+     the table or of the identifier member (`long` / INTEGER_t cells);
+ every module under several option sets; identifiers at the boundaries of each representation,
+ and for every row identifier the NON-row identifiers a truncated, sign-flipped or
+ re-interpreted cell would answer to."""
 import sys, os, re, json
 sys.path.insert(0, os.path.join(os.path.dirname(os.path.abspath(__file__)), "..", "lib"))
 from vlib import *
@@ -72,6 +80,145 @@ def probe_optional_open_type(run, p):
         run.violation("leak:optional-open-type", {"module": PR1, "what": "sanitizer report at exit", "stderr_tail": leak[-2500:]})
 
 
+# the identifier member AFTER the open-type member (X.681 does not fix an order)
+PR2 = """PR2 DEFINITIONS AUTOMATIC TAGS ::= BEGIN
+  MY-CLASS ::= CLASS { &id INTEGER UNIQUE, &Type } WITH SYNTAX { ID &id TYPE &Type }
+  MySet MY-CLASS ::= { { ID 0 TYPE R1 } | { ID 5 TYPE R2 } | { ID 200 TYPE R3 } }
+  Frame ::= SEQUENCE { value MY-CLASS.&Type({MySet}{@id}), id MY-CLASS.&id({MySet}) }
+  R1 ::= INTEGER
+  R2 ::= BOOLEAN
+  R3 ::= OCTET STRING
+END
+"""
+# (encoding, True = a valid frame / False = identifier and value do not belong together)
+PR2_CASES = [("ber", "3008a003020107810100", True), ("ber", "3008a0030101ff810105", True), ("ber", "300aa00504037a7a7a810200c8", True),
+             ("ber", "3008a003020107810105", False), ("ber", "3008a0030101ff810100", False), ("ber", "3008a003020107810107", False),
+             ("uper", "0201070100", True), ("uper", "01800105", True), ("uper", "0201070105", False)]
+
+# an identifier field whose range constraint gives the identifier member another C representation than the cells
+PR4 = """PR4 DEFINITIONS AUTOMATIC TAGS ::= BEGIN
+  MY-CLASS ::= CLASS { &id INTEGER (0..65535) UNIQUE, &Type } WITH SYNTAX { ID &id TYPE &Type }
+  MySet MY-CLASS ::= { { ID 0 TYPE R1 } | { ID 5 TYPE R2 } | { ID 200 TYPE R3 } }
+  Frame ::= SEQUENCE { id MY-CLASS.&id({MySet}), n INTEGER (0..255), value MY-CLASS.&Type({MySet}{@id}) }
+  R1 ::= INTEGER
+  R2 ::= BOOLEAN
+  R3 ::= OCTET STRING
+END
+"""
+PR4_CASES = [("ber", "300b800105810100a2030101ff", True), ("ber", "300b800105810101a2030101ff", True), ("ber", "300b800100810109a203020107", True),
+             ("ber", "300c800200c8810101a20304017a", True), ("uper", "0005010180", True), ("ber", "300b800105810101a203020107", False),
+             ("ber", "300b800107810101a2030101ff", False)]
+REPMIS = re.compile(r"(SEGV on unknown address 0x0*(5|c8|7)\b|INTEGER\.c:\d+:\d+: runtime error: load of null pointer)(.*\n){0,8}?.*INTEGER_compare")
+
+# the frame written inline (an anonymous SEQUENCE member holding the identifier and the open type)
+PR3 = """PR3 DEFINITIONS AUTOMATIC TAGS ::= BEGIN
+  MY-CLASS ::= CLASS { &id INTEGER UNIQUE, &Type } WITH SYNTAX { ID &id TYPE &Type }
+  MySet MY-CLASS ::= { { ID 0 TYPE R1 } | { ID 5 TYPE R2 } | { ID 200 TYPE R3 } }
+  Frame ::= SEQUENCE { pre BOOLEAN, inner SEQUENCE { id MY-CLASS.&id({MySet}), value MY-CLASS.&Type({MySet}{@.id}) } }
+  R1 ::= INTEGER
+  R2 ::= BOOLEAN
+  R3 ::= OCTET STRING
+END
+"""
+PR3_CASES = [("300d8001ffa108800105a1030101ff", True), ("300d8001ffa108800100a103020107", True), ("300d8001ffa108800105a103020101", False),
+             ("300d8001ffa108800107a103020101", False)]
+
+
+def probe_id_after_open_type(run, p):
+    """findings C18-identifier-after-open-type (the selector runs before the identifier member is decoded: it sees the
+    zero-initialised member) and C18-integer-compare-empty-null (with INTEGER_t identifiers that member is an empty INTEGER_t,
+    and INTEGER_compare reads a->buf[0] of it)."""
+    lines = ["dec Frame %s %s" % (s, h) for s, h, _ in PR2_CASES]
+    outs, crashes, leak = run_resilient(p["exe"], lines)
+    for i, ((s, h, valid), l, o) in enumerate(zip(PR2_CASES, lines, outs)):
+        run.case(p["fs"] + " " + l)
+        ok = o.startswith("OK %d " % (len(h) // 2))
+        if o == "CRASH":
+            if True:
+                run.violation("crash:identifier-after-open-type", {"module": PR2, "options": p["opts"], "command_line": l, "what": "decoder crashed",
+                                                                   "stderr_tail": crashes.get(i, "")[-2500:]})
+        elif valid and ok and (s != "ber" or o.split()[2] == h):
+            run.count("probe_id_after_valid_ok")
+        elif not valid and not ok and o.startswith(("FAIL", "MORE")):
+            run.count("probe_id_after_mismatch_fails")
+        elif o.startswith(("OK", "FAIL", "MORE")):
+            # a valid frame refused, or a mismatch accepted: the recorded defect (the row of identifier 0 is always taken)
+            run.known_finding("C18-identifier-after-open-type", l)
+        else:
+            run.violation("oracle:identifier-after-open-type", {"module": PR2, "options": p["opts"], "command_line": l, "c": o, "what": "unexpected driver output"})
+    if leak is not None:
+        run.violation("leak:identifier-after-open-type", {"module": PR2, "what": "sanitizer report at exit", "stderr_tail": leak[-2500:]})
+
+
+def rep_mismatch(p):
+    """the generated selector reads the identifier member as a (unsigned) long while the cells are INTEGER_t, or the reverse"""
+    try:
+        tables, sels = parse_ioc_tables(os.path.join(p["dir"], "Frame.c"))
+    except (OSError, KeyError, IndexError, ValueError):
+        return False
+    for mem, (tname, ccol, fcol, vtype) in sels.items():
+        t = tables.get(tname)
+        if not t or not t["cells"]:
+            continue
+        ct = t["cells"][0][ccol]["ctype"]
+        if ct in ("long", "unsigned long", "INTEGER_t") and (ct == "INTEGER_t") != (vtype not in ("long", "unsigned long")):
+            return True
+    return False
+
+
+def probe_rep_mismatch(run, p):
+    """finding C18-identifier-representation-mismatch; a clean refusal by asn1c is the (proposed) repaired behaviour"""
+    run.case(p["fs"] + " build PR4")
+    if p.get("asn1c_rc") == 70 and "different C representations" in p.get("asn1c_out", ""):
+        run.count("probe_rep_mismatch_refused")
+        return
+    if not p.get("exe"):
+        run.violation("build:module", {"what": "the probe module with a constrained identifier field does not build", "module": PR4, "options": p["opts"],
+                                       "asn1c_rc": p.get("asn1c_rc"), "asn1c_out": p.get("asn1c_out", "")[-1500:], "build_log": p.get("build_log", "")[-1500:]})
+        return
+    mis = rep_mismatch(p)
+    lines = ["dec Frame %s %s" % (s, h) for s, h, _ in PR4_CASES]
+    outs, crashes, leak = run_resilient(p["exe"], lines)
+    for i, ((s, h, valid), l, o) in enumerate(zip(PR4_CASES, lines, outs)):
+        run.case(p["fs"] + " " + l)
+        ok = o.startswith("OK %d " % (len(h) // 2)) and (s != "ber" or o.split()[2] == h)
+        if (valid and ok) or (not valid and o.startswith(("FAIL", "MORE"))):
+            run.count("probe_rep_mismatch_" + ("valid_ok" if valid else "mismatch_fails"))
+        elif mis and ((o == "CRASH" and REPMIS.search(crashes.get(i, ""))) or (valid and o.startswith(("FAIL", "MORE")))):
+            run.known_finding("C18-identifier-representation-mismatch", l)
+        else:
+            run.violation("crash:constrained-identifier" if o == "CRASH" else "oracle:opentype_roundtrip(constrained identifier)",
+                          {"module": PR4, "options": p["opts"], "command_line": l, "c": o, "what": "frame with a constrained identifier field: valid frame not returned / mismatch not refused",
+                           "representation_mismatch": mis, "stderr_tail": crashes.get(i, "")[-2000:]})
+    if leak is not None:
+        run.violation("leak:constrained-identifier", {"module": PR4, "what": "sanitizer report at exit", "stderr_tail": leak[-2500:]})
+
+
+def probe_inline_frame(run, p):
+    """finding C18-inline-frame-assert: asn1c aborts (assertion in asn1c_lang_C_type_SEQUENCE) on a frame written inline"""
+    run.case(p["fs"] + " build PR3")
+    if p.get("asn1c_rc") not in (0, None) and "Assertion" in p.get("asn1c_out", "") and "asn1c_lang_C_type_SEQUENCE" in p.get("asn1c_out", ""):
+        run.known_finding("C18-inline-frame-assert", "build PR3")
+        return
+    if not p.get("exe"):
+        run.violation("build:module", {"what": "the probe module with an inline frame does not build", "module": PR3, "options": p["opts"],
+                                       "asn1c_rc": p.get("asn1c_rc"), "asn1c_out": p.get("asn1c_out", "")[-1500:], "build_log": p.get("build_log", "")[-1500:]})
+        return
+    lines = ["dec Frame ber " + h for h, _ in PR3_CASES]
+    outs, crashes, leak = run_resilient(p["exe"], lines)
+    for i, ((h, valid), l, o) in enumerate(zip(PR3_CASES, lines, outs)):
+        run.case(p["fs"] + " " + l)
+        good = o.startswith("OK %d %s " % (len(h) // 2, h)) if valid else o.startswith(("FAIL", "MORE"))
+        if good:
+            run.count("probe_inline_frame_ok")
+        else:
+            run.violation("crash:inline-frame" if o == "CRASH" else "oracle:opentype_roundtrip(inline)",
+                          {"module": PR3, "options": p["opts"], "command_line": l, "c": o, "what": "inline frame: valid frame not returned / mismatch not refused",
+                           "stderr_tail": crashes.get(i, "")[-2000:]})
+    if leak is not None:
+        run.violation("leak:inline-frame", {"module": PR3, "what": "sanitizer report at exit", "stderr_tail": leak[-2500:]})
+
+
 def mrun(model, lines):
     if not lines:
         return []
@@ -128,44 +275,164 @@ def mutate(rng, hx):
     return bytes(b[:i] + bytes([rng.below(256)]) + b[i:]).hex()
 
 
-def check_module(run, rng, model, m, tier):
+FIELD = ["&id", "&Type", "&Aux"]
+
+
+def wide_rep(m):
+    """INTEGER_t cells and an INTEGER_t identifier member: -fwide-types and an INTEGER / ENUMERATED identifier"""
+    return m["rep"] == "wide" and m["idkind"] in ("int", "enum")
+
+
+def wide_refuses(m):
+    """asn1c_ioc.c:emit_ioc_value writes INTEGER_t cells for 0..32767 only (the Python reading of that rule; the model's is emit_table = None)"""
+    return wide_rep(m) and any(not (0 <= r["id"] <= 32767) for r in comp_rows(m))
+
+
+def check_table(run, model, m):
+    """(C) the emitted table read back from the generated C == the object set as written (comp rows, Python's reading)
+    == the model's emitted table, cell by cell"""
+    kind, comp = m["idkind"], comp_rows(m)
+    Fc = frame_tokens(m, "wide" if wide_rep(m) else "comp")
+    mcells = mrun(model, ["c18cells " + Fc])[0]
+    replay = {"module": m["text"], "options": m["opts"], "model_cells": mcells[:600]}
+    try:
+        tables, sels = parse_ioc_tables(os.path.join(m["dir"], "Frame.c"))
+    except (OSError, KeyError, IndexError, ValueError) as e:
+        run.violation("oracle:table_as_written", dict(replay, what="generated Frame.c cannot be read back: %r" % (e,)))
+        return
+    run.case("%s table %s" % (m["fs"], m["name"]))
+    if not comp:
+        # no row survives (a one-row set): no table, no selector (finding C18-lone-object-dropped, met by the selector probes)
+        if any(t["rows"] or t["ncells"] for t in tables.values()) or mcells != "EMPTY":
+            run.violation("correspondence:OpenTypeCell.emit_table", dict(replay, what="a table was emitted for a set whose only object stands alone", c=str(tables)[:400]))
+        return
+    if len(tables) != 1:
+        run.violation("oracle:table_as_written", dict(replay, what="expected exactly one asn_IOS_* table in Frame.c, found %d" % len(tables)))
+        return
+    (tname, t), = tables.items()
+    bad = []
+    if t["rows"] != len(comp) or t["cols"] != m["ncols"] + 1 or t["cells"] is None or t["ncells"] != t["ncells_text"]:
+        bad.append("shape: rows_count=%s columns_count=%s cells read=%s/%s, the set has %d objects x %d fields" %
+                   (t["rows"], t["cols"], t["ncells"], t["ncells_text"], len(comp), m["ncols"] + 1))
+    # the selectors: one per open-type member, on this table, constrained by column 0, for the member's column
+    for j, mem in enumerate(m["members"]):
+        want = (tname, 0, 1 + m["mcols"][j])
+        if (sels.get("Frame_" + mem) or ())[:3] != want:
+            bad.append("selector of member %s uses %s, expected %s" % (mem, sels.get("Frame_" + mem), want))
+    if bad:
+        run.violation("oracle:table_as_written", dict(replay, what="; ".join(bad)))
+        return
+    mtoks = mcells.split()
+    if len(mtoks) != len(comp):
+        run.violation("correspondence:OpenTypeCell.emit_table", dict(replay, what="the model's table has %d rows, the C table %d" % (len(mtoks), len(comp))), no_input=True)
+        return
+    want_def = {"int": "INTEGER" if wide_rep(m) else "NativeInteger", "enum": "Kind", "oid": "OBJECT_IDENTIFIER"}[kind]   # (the cell's type by name)
+    want_ctype = "INTEGER_t" if wide_rep(m) else {"int": "long", "enum": "long", "oid": "OBJECT_IDENTIFIER_t"}[kind]
+    for i, (row, cells, mt) in enumerate(zip(comp, t["cells"], mtoks)):
+        c0 = cells[0]
+        run.count("table_cell_%s" % ("octets" if wide_rep(m) else kind))
+        where = "row %d (identifier %s)" % (i + 1, id_text(kind, row["id"]))
+        if c0["field"] != "&id" or c0["kind"] != "aioc__value" or c0["def"] != want_def or c0["ctype"] != want_ctype:
+            run.violation("oracle:table_as_written", dict(replay, what="%s: identifier cell is %s, expected field &id, aioc__value, asn_DEF_%s, %s" %
+                                                          (where, {k: c0[k] for k in ("field", "kind", "def", "ctype")}, want_def, want_ctype)))
+            continue
+        v = c0["value"]
+        # the model's cell, as a value of the same shape
+        mv = ("long", int(mt[1:-1])) if mt.startswith("I") else ("octets", bytes.fromhex(mt[1:-1]))
+        if v != mv:
+            run.violation("correspondence:OpenTypeCell.emit_table", dict(replay, what="%s: the emitted cell is %r, the model's emit_table gives %r" % (where, v, mv), c=str(v)),
+                          no_input=True)
+        # the object set as written
+        if kind == "oid":
+            if v != ("octets", oid_contents(row["id"])):
+                run.known_finding("C18-oid-identifier", where)
+            continue
+        want = ("octets", int_octets(row["id"])) if wide_rep(m) else ("long", row["id"])
+        if v != want:
+            denotes = int.from_bytes(v[1], "big", signed=True) if v[0] == "octets" and v[1] else None
+            run.violation("oracle:table_as_written", dict(replay, what="%s: the emitted identifier cell is %r%s, the object set says %r" %
+                                                          (where, v, " (denotes %d)" % denotes if denotes is not None else "", want),
+                                                          input="identifier %d: a frame with it is refused; identifier %s is accepted in its place" % (row["id"], denotes)))
+        # type cells, by name
+        for c in range(m["ncols"]):
+            tc = cells[1 + c]
+            if (tc["field"], tc["kind"], tc["def"]) != (FIELD[1 + c], "aioc__type", row["types"][c]):
+                run.violation("oracle:table_as_written", dict(replay, what="%s: type cell %d is %s, the object set says %s %s" %
+                                                              (where, c + 1, (tc["field"], tc["kind"], tc["def"]), FIELD[1 + c], row["types"][c])))
+
+
+def check_module(run, rng, model, m, tier, depth):
     kind = m["idkind"]
-    Fc, Fs = frame_tokens(m, "comp"), frame_tokens(m, "spec")
+    wide = wide_rep(m)
+    Fc, Fs = frame_tokens(m, "wide" if wide else "comp"), frame_tokens(m, "spec")
     spec, comp = m["rows"], comp_rows(m)
     cidx = {id(r): i + 1 for i, r in enumerate(comp)}
-    tagged = not m["untagged"]
-    nv = 3 if tier == "quick" else 8
+    full = depth == "full"
+    nv = (3 if tier == "quick" else 8) if full else 1
+    if len(spec) > 12:
+        nv = 1
+    use_uper = m["per"] and kind != "enum"          # ENUMERATED in PER is outside the model: the C's own round trip covers it
+    nmem = len(m["mcols"])
+    fs = m["fs"]
     used = [r["id"] for r in spec]
-    pool = [x for x in (INT_IDS if kind == "int" else OID_IDS) if x not in used]
-    if kind == "int":
+    intlike = kind in ("int", "enum")
+    pool = [x for x in (OID_IDS if kind == "oid" else INT_IDS) if x not in used]
+    if intlike:
         pool = [x for x in [used[0] + 1, used[-1] - 1] if x not in used] + pool
     unknown = rng.shuffle(pool)[:3]
+    # for every row identifier the identifiers a truncated / sign-flipped / re-interpreted cell would answer to
+    derived = []
+    if intlike:
+        seen = set(used) | set(unknown)
+        for r in spec:
+            for x in derived_ids(r["id"]):
+                if x not in seen:
+                    seen.add(x)
+                    derived.append(x)
+        if not full or len(spec) > 40:
+            derived = rng.shuffle(derived)[:40 if tier == "quick" else 120]
+
+    check_table(run, model, m)
 
     # ---------------------------------------------------------------- (T) selector
-    probe = [(r["id"], r) for r in spec] + [(u, None) for u in unknown] + ([(b"", None)] if kind == "oid" else [])
-    lines = ["sel Frame %s" % id_universal_der(kind, i).hex() for i, _ in probe]
-    mo_c = mrun(model, ["c18sel %s %s" % (Fc, id_val_str(kind, i)) for i, _ in probe])
-    mo_s = mrun(model, ["c18sel %s %s" % (Fs, id_val_str(kind, i)) for i, _ in probe])
+    # probe = (identifier value or raw contents octets, row of the set as written or None, has an oracle)
+    probe = [(r["id"], r, True) for r in spec] + [(u, None, True) for u in unknown + derived] + ([(b"", None, True)] if kind == "oid" else [])
+    if intlike:
+        for r in rng.shuffle(spec)[:3 if full else 1]:
+            probe += [(nm, r, False) for nm in nonminimal(r["id"])]     # invalid BER contents: faithfulness only
+    lines, mlc, mls = [], [], []
+    for idv, row, orc in probe:
+        lines.append("sel Frame %s" % id_universal_der(kind, idv).hex())
+        if isinstance(idv, bytes) and intlike:
+            z = int.from_bytes(idv, "big", signed=True)
+            mlc.append("c18selraw %s %s" % (Fc, idv.hex()) if wide else "c18sel %s %s" % (Fc, id_val_str(kind, z)))
+            mls.append("c18sel %s %s" % (Fs, id_val_str(kind, z)))
+        else:
+            mlc.append("c18sel %s %s" % (Fc, id_val_str(kind, idv)))
+            mls.append("c18sel %s %s" % (Fs, id_val_str(kind, idv)))
+    mo_c, mo_s = mrun(model, mlc), mrun(model, mls)
     co, crashes = crun(run, m, lines, "sel")
     selectable = set()
-    for (idv, row), l, o, pc, ps in zip(probe, lines, co, mo_c, mo_s):
-        run.case(l)
-        run.count("sel_" + ("row" if row else "norow"))
+    for (idv, row, orc), l, o, pc, ps in zip(probe, lines, co, mo_c, mo_s):
+        run.case(fs + " " + l)
+        run.count("sel_" + ("nonminimal" if not orc else "row" if row else "norow"))
         f = [x.split(":") for x in o.split()] if ":" in o else []
-        ok_shape = len(f) == m["ncols"] and all(len(x) == 3 for x in f) and len(set(x[0] for x in f)) == 1
-        replay = {"module": m["text"], "identifier": id_text(kind, idv) if not isinstance(idv, bytes) else "(empty contents)", "command_line": l, "c": o,
-                  "model_compiled_table": pc, "model_set_as_written": ps}
+        ok_shape = len(f) == nmem and all(len(x) == 3 for x in f) and len(set(x[0] for x in f)) == 1
+        replay = {"module": m["text"], "options": m["opts"], "identifier": id_text(kind, idv) if not isinstance(idv, bytes) else "(contents octets %s)" % (idv.hex() or "empty"),
+                  "command_line": l, "c": o, "model_compiled_table": pc, "model_set_as_written": ps}
         if not ok_shape:
             run.violation("correspondence:OpenType.select", dict(replay, what="selector probe failed or the open-type members disagree about the row"))
             continue
         p = int(f[0][0])
         names = [x[1] for x in f]
-        if str(p) != pc or (p and names != comp[p - 1]["types"]):
+        if str(p) != pc or (p and names != mtypes(m, comp[p - 1])):
             run.violation("correspondence:OpenType.select", dict(replay, what="generated selector differs from the model's select on the compiled table"),
-                          no_input=(pc == ps))
+                          no_input=(pc == ps or not orc))
+            continue
+        if not orc:
             continue
         # oracle: the row the set as written pairs with the identifier (types by name), none iff no row has it
-        want = spec[int(ps) - 1]["types"] if ps != "0" else None
+        want = mtypes(m, spec[int(ps) - 1]) if ps != "0" else None
         got = names if p else None
         if want == got:
             if row is not None:
@@ -183,46 +450,49 @@ def check_module(run, rng, model, m, tier):
     cases = []
     for r in spec:
         for _ in range(nv):
-            vals = [value(m["trees"][tn], rng) for tn in r["types"]]
+            vals = [value(m["trees"][tn], rng) for tn in mtypes(m, r)]
             cases.append({"row": r, "vals": vals})
     ml = []
     for c in cases:
         r = c["row"]
         if id(r) in cidx:
             c["p"] = cidx[id(r)]
-            ml += ["c18der %s %s %s" % (Fc, id_val_str(kind, r["id"]), ovals(c["p"], c["vals"])),
-                   "c18uper %s %s %s" % (Fc, id_val_str(kind, r["id"]), ovals(c["p"], c["vals"]))]
+            F, ps = Fc, c["p"]
         else:
             c["p"] = None
-            ps = spec.index(r) + 1
-            ml += ["c18der %s %s %s" % (Fs, id_val_str(kind, r["id"]), ovals(ps, c["vals"])),
-                   "c18uper %s %s %s" % (Fs, id_val_str(kind, r["id"]), ovals(ps, c["vals"]))]
+            F, ps = Fs, spec.index(r) + 1
+        ml.append("c18der %s %s %s" % (F, id_val_str(kind, r["id"]), ovals(ps, c["vals"])))
+        if use_uper:
+            ml.append("c18uper %s %s %s" % (F, id_val_str(kind, r["id"]), ovals(ps, c["vals"])))
     mo = mrun(model, ml)
+    k = 2 if use_uper else 1
     for i, c in enumerate(cases):
-        c["der"], c["uper"] = mo[2 * i], mo[2 * i + 1]
+        c["der"], c["uper"] = mo[k * i], (mo[k * i + 1] if use_uper else None)
     cases = [c for c in cases if c["der"] != "NONE" and c["uper"] != "NONE"]
     seen = set()
     cases = [c for c in cases if not (c["der"] in seen or seen.add(c["der"]))]
     md0 = mrun(model, ["c18dec %s %s" % (Fc, c["der"]) for c in cases])
     md1 = mrun(model, ["c18dec %s %s" % (Fs, c["der"]) for c in cases])
-    mu0 = mrun(model, ["c18uperdec %s %s" % (Fc, c["uper"]) for c in cases])
+    mu0 = mrun(model, ["c18uperdec %s %s" % (Fc, c["uper"]) for c in cases]) if use_uper else [None] * len(cases)
     lines = []
     for c in cases:
-        lines += ["dec Frame ber %s" % c["der"], "dec Frame uper %s" % c["uper"]]
+        lines.append("dec Frame ber %s" % c["der"])
+        if use_uper:
+            lines.append("dec Frame uper %s" % c["uper"])
     co, crashes = crun(run, m, lines, "valid-dec")
-    good = []
     for i, c in enumerate(cases):
         r = c["row"]
-        for s, o, mf, l in (("ber", co[2 * i], md0[i], lines[2 * i]), ("uper", co[2 * i + 1], mu0[i], lines[2 * i + 1])):
-            run.case(l)
+        for j, (s, mf) in enumerate((("ber", md0[i]), ("uper", mu0[i]))[:k]):
+            o, l = co[k * i + j], lines[k * i + j]
+            run.case(fs + " " + l)
             run.count("valid_" + s)
             enc = c["der"] if s == "ber" else c["uper"]
-            replay = {"module": m["text"], "row": r["types"], "identifier": id_text(kind, r["id"]), "values": [val_str(v) for v in c["vals"]],
+            replay = {"module": m["text"], "options": m["opts"], "row": r["types"], "identifier": id_text(kind, r["id"]), "values": [val_str(v) for v in c["vals"]],
                       "command_line": l, "c": o, "model_faithful": mf, "model_standard_ber": md1[i]}
             c_ok = o.startswith("OK %d %s ck=" % (len(enc) // 2, c["der"]))
             m_ok = mf.startswith("OK %d " % (len(enc) // 2))
             if o == "CRASH":
-                run.violation("crash:valid-" + s, dict(replay, what="decoder crashed on a valid encoding", stderr_tail=crashes.get(2 * i + (s == "uper"), "")[-2000:]))
+                run.violation("crash:valid-" + s, dict(replay, what="decoder crashed on a valid encoding", stderr_tail=crashes.get(k * i + j, "")[-2000:]))
                 continue
             if c_ok != m_ok or (not c_ok and not o.startswith(("FAIL", "MORE"))):
                 run.violation("correspondence:OpenType.%s_dec_frame" % s, dict(replay, what="C decoder and faithful model disagree on a valid frame"), no_input=c_ok)
@@ -251,35 +521,47 @@ def check_module(run, rng, model, m, tier):
             lines.append(cmd)
             meta.append(c)
     co, crashes = crun(run, m, lines, "valid-enc")
-    for k in range(0, len(lines), 4):
-        c = meta[k]
+    for k4 in range(0, len(lines), 4):
+        c = meta[k4]
         r = c["row"]
-        replay = {"module": m["text"], "row": r["types"], "identifier": id_text(kind, r["id"]), "values": [val_str(v) for v in c["vals"]]}
+        replay = {"module": m["text"], "options": m["opts"], "row": r["types"], "identifier": id_text(kind, r["id"]), "values": [val_str(v) for v in c["vals"]]}
         for j, (what, exp) in enumerate((("der_frame", c["der"]), ("uper_frame", c["uper"]))):
-            run.case(lines[k + j])
+            if exp is None:
+                if m["per"] and not co[k4 + j].startswith("OK "):
+                    run.violation("oracle:uper_encode", dict(replay, what="UPER encoding of a valid frame failed", command_line=lines[k4 + j], c=co[k4 + j]))
+                continue
+            run.case(fs + " " + lines[k4 + j])
             run.count("enc_" + what)
-            if co[k + j] != "OK " + exp:
-                run.violation("correspondence:OpenType." + what, dict(replay, what="C encoder output differs from the model", command_line=lines[k + j], c=co[k + j], model=exp))
-        if co[k + 2].startswith("OK "):
-            c["xer"] = bytes.fromhex(co[k + 2][3:]).decode("latin-1")
+            if co[k4 + j] != "OK " + exp:
+                run.violation("correspondence:OpenType." + what, dict(replay, what="C encoder output differs from the model", command_line=lines[k4 + j], c=co[k4 + j], model=exp))
+        if co[k4 + 2].startswith("OK "):
+            c["xer"] = bytes.fromhex(co[k4 + 2][3:]).decode("latin-1")
+            # XER: each open-type member holds the element of the selected row's type, by name
+            for mem, tn in zip(m["members"], mtypes(m, r)):
+                run.count("xer_element_name")
+                if "<%s><%s>" % (mem, tn) not in c["xer"] and "<%s><%s/>" % (mem, tn) not in c["xer"]:
+                    run.violation("oracle:xer_element_name", dict(replay, what="XER: member %s does not hold an element named after the selected row's type %s" % (mem, tn),
+                                                                   command_line=lines[k4 + 2], xer=c["xer"][:600]))
         else:
-            run.violation("oracle:xer_encode", dict(replay, what="XER encoding of a valid frame failed", command_line=lines[k + 2], c=co[k + 2]))
-        run.case(lines[k + 3])
-        for part in co[k + 3].split():
+            run.violation("oracle:xer_encode", dict(replay, what="XER encoding of a valid frame failed", command_line=lines[k4 + 2], c=co[k4 + 2]))
+        run.case(fs + " " + lines[k4 + 3])
+        for part in co[k4 + 3].split():
             syn, _, st = part.partition("=")
             run.count("rt_%s_%s" % (syn, st.split(":")[0]))
             if st == "OK" or syn == "coer":          # OER: OPEN_TYPE has no OER encoder; not part of the statement
                 continue
+            if syn == "cper" and not m["per"]:
+                continue                              # -no-gen-PER
             mt = re.match(r"DEC:OK:(\d+)/(\d+)$", st)
             if syn == "xer" and mt and int(mt.group(1)) + 1 == int(mt.group(2)):
                 continue                              # C01-xer-trailing-newline (recorded under C01); cxer covers the value
             run.violation("oracle:opentype_roundtrip(%s)" % syn, dict(replay, what="encode-then-decode does not return the frame: " + st,
-                                                                     command_line=lines[k + 3], c=co[k + 3]))
-        if "=" not in co[k + 3]:
-            run.violation("oracle:opentype_roundtrip", dict(replay, what="round-trip battery failed", command_line=lines[k + 3], c=co[k + 3]))
+                                                                     command_line=lines[k4 + 3], c=co[k4 + 3]))
+        if "=" not in co[k4 + 3]:
+            run.violation("oracle:opentype_roundtrip", dict(replay, what="round-trip battery failed", command_line=lines[k4 + 3], c=co[k4 + 3]))
     if cases:
         c = cases[0]
-        run.sample({"module": m["name"], "set": [(id_text(kind, r["id"]), r["types"]) for r in spec][:4], "der": c["der"][:80], "uper": c["uper"][:60]})
+        run.sample({"module": m["name"], "options": m["opts"], "set": [(id_text(kind, r["id"]), r["types"]) for r in spec][:4], "der": c["der"][:80], "uper": (c["uper"] or "")[:60]})
 
     # ---------------------------------------------------------------- mismatches
     live = [c for c in cases if c.get("tr")]
@@ -288,18 +570,20 @@ def check_module(run, rng, model, m, tier):
     byrow = {}
     for c in live:
         byrow.setdefault(id(c["row"]), []).append(c)
+    syns = ("der", "uper") if use_uper else ("der",)
     mm = []          # kind, syntax, model encode line, selected comp row or None, source case
-    for u in unknown:
-        for c in live[:2] + [live[-1]]:
-            for s in ("der", "uper"):
-                mm.append({"k": "noid", "s": s, "ml": "c18%s %s %s %s" % (s, Fc, id_val_str(kind, u), ovals(c["p"], c["vals"])), "a": None, "c": c})
+    nd = (6 if tier == "quick" else 30) if full else 2
+    for u in unknown + rng.shuffle(derived)[:nd]:
+        for c in (live[:2] + [live[-1]]) if u in unknown else [rng.choice(live)]:
+            for s in syns:
+                mm.append({"k": "noid", "s": s, "ml": "c18%s %s %s %s" % (s, Fc, id_val_str(kind, u), ovals(c["p"], c["vals"])), "a": None, "c": c, "u": u})
     rows_live = [r for r in comp if id(r) in byrow]
     pairs = [(a, b) for a in rows_live for b in rows_live if a is not b]
-    if tier == "quick":
-        pairs = rng.shuffle(pairs)[:10]
+    if tier == "quick" or not full or len(pairs) > 60:
+        pairs = rng.shuffle(pairs)[:(10 if tier == "quick" else 60) if full else 3]
     for a, b in pairs:
         for c in byrow[id(b)][:2]:
-            for s in ("der", "uper"):
+            for s in syns:
                 mm.append({"k": "cross", "s": s, "ml": "c18%s %s %s %s" % (s, Fc, id_val_str(kind, a["id"]), ovals(c["p"], c["vals"])), "a": a, "c": c})
     for x, e in zip(mm, mrun(model, [x["ml"] for x in mm])):
         x["e"] = e
@@ -310,10 +594,10 @@ def check_module(run, rng, model, m, tier):
     reenc, reenc_meta, second = [], [], []
     for i, (x, l, o, mf) in enumerate(zip(mm, lines, co, mdec)):
         k, s, a = x["k"], x["s"], x["a"]
-        run.case(l)
+        run.case(fs + " " + l)
         run.count("mismatch_%s_%s" % (k, s))
-        replay = {"module": m["text"], "mismatch": k, "selected_row": a["types"] if a else None, "value_of_row": x["c"]["row"]["types"],
-                  "command_line": l, "c": o, "model": mf}
+        replay = {"module": m["text"], "options": m["opts"], "mismatch": k, "selected_row": a["types"] if a else None, "value_of_row": x["c"]["row"]["types"],
+                  "identifier": id_text(kind, x["u"]) if a is None else id_text(kind, a["id"]), "command_line": l, "c": o, "model": mf}
         if o == "CRASH":
             run.violation("crash:mismatch", dict(replay, what="decoder crashed on an identifier/value mismatch", stderr_tail=crashes.get(i, "")[-2500:]))
             continue
@@ -329,6 +613,9 @@ def check_module(run, rng, model, m, tier):
                 # selected row's type, so ask the C's decoder of that very type, standalone, about the same inner bytes
                 second.append((x, l, o, replay))
             continue
+        if k == "noid":
+            run.violation("model:OpenType.dec_frame", dict(replay, what="the model accepts an identifier that has no row"), no_input=True)
+            continue
         # the bytes happen to be an encoding of the selected row's type: the C must decode them as that type
         f = mf.split()
         reenc.append("c18der %s %s" % (Fc, " ".join(f[2:])))
@@ -342,20 +629,20 @@ def check_module(run, rng, model, m, tier):
         ml, cl = [], []
         for x, l, o, replay in second:
             for col, v in enumerate(x["c"]["vals"]):
-                ts = model_str(m["trees"][x["c"]["row"]["types"][col]])
+                ts = model_str(m["trees"][mtypes(m, x["c"]["row"])[col]])
                 ml.append(("der %s %s" if x["s"] == "der" else "uper 0 %s %s") % (ts, val_str(v)))
         inner = mrun(model, ml)
         pos = 0
         for x, l, o, replay in second:
-            x["inner"] = inner[pos:pos + m["ncols"]]
-            pos += m["ncols"]
+            x["inner"] = inner[pos:pos + nmem]
+            pos += nmem
             for col, h in enumerate(x["inner"]):
-                cl.append("dec %s %s %s" % (x["a"]["types"][col], "ber" if x["s"] == "der" else "uper", h))
+                cl.append("dec %s %s %s" % (mtypes(m, x["a"])[col], "ber" if x["s"] == "der" else "uper", h))
         so, scr = crun(run, m, cl, "mismatch-second")
         pos = 0
         for x, l, o, replay in second:
-            outs = so[pos:pos + m["ncols"]]
-            pos += m["ncols"]
+            outs = so[pos:pos + nmem]
+            pos += nmem
             # the frame's DER as the C printed it must carry exactly the standalone results
             ok = all(u.startswith("OK ") for u in outs) and all(u.split()[2] in o.split()[2] for u in outs)
             if ok:
@@ -364,6 +651,43 @@ def check_module(run, rng, model, m, tier):
                 run.violation("correspondence:OpenType.%s_dec_frame" % ("ber" if x["s"] == "der" else "uper"),
                               dict(replay, what="C decodes bytes that do not decode as the selected row's type (neither for the model nor for the C's own decoder of that type)",
                                    standalone=outs), no_input=True)
+    # the frame inside other types: member of a SEQUENCE and elements of a SEQUENCE OF (the selector gets the right parent)
+    good = [c for c in live if c.get("ok_ber")]
+    badf = [x["e"] for x, mf, o in zip(mm, mdec, co) if x["s"] == "der" and mf == "FAIL" and o.startswith(("FAIL", "MORE"))]
+    if good:
+        wl, wmeta = [], []
+        for _ in range(3 if full else 1):
+            inner = bytes.fromhex(rng.choice(good)["der"])
+            elems = [bytes.fromhex(rng.choice(good)["der"]) for _ in range(rng.below(4))]
+            w = wrap_der(m, inner, elems).hex()
+            wl += ["dec Wrap ber " + w, "rt Wrap ber " + w]
+            wmeta += [("valid", w), ("rt", w)]
+            if badf:
+                b = bytes.fromhex(rng.choice(badf))
+                pos = rng.below(len(elems) + 2)
+                w2 = (wrap_der(m, b, elems) if pos == 0 else wrap_der(m, inner, elems[:pos - 1] + [b] + elems[pos - 1:])).hex()
+                wl.append("dec Wrap ber " + w2)
+                wmeta.append(("bad", w2))
+        wo, wcr = crun(run, m, wl, "nested")
+        for i, (l, o, (what, w)) in enumerate(zip(wl, wo, wmeta)):
+            run.case(fs + " " + l)
+            run.count("nested_" + what)
+            replay = {"module": m["text"], "options": m["opts"], "command_line": l, "c": o}
+            if o == "CRASH":
+                run.violation("crash:nested", dict(replay, what="decoder crashed on frames nested in a SEQUENCE / SEQUENCE OF", stderr_tail=wcr.get(i, "")[-2500:]))
+            elif what == "valid" and not o.startswith("OK %d %s " % (len(w) // 2, w)):
+                run.violation("oracle:opentype_roundtrip(nested)", dict(replay, what="valid frames inside a SEQUENCE and a SEQUENCE OF are not decoded and re-encoded"))
+            elif what == "bad" and not o.startswith(("FAIL", "MORE")):
+                run.violation("oracle:opentype_mismatch_fails(nested)", dict(replay, what="a frame with an identifier/value mismatch is accepted inside a SEQUENCE / SEQUENCE OF"))
+            elif what == "rt":
+                for part in o.split():
+                    syn, _, st = part.partition("=")
+                    if st == "OK" or syn == "coer" or (syn == "cper" and not m["per"]):
+                        continue
+                    mt = re.match(r"DEC:OK:(\d+)/(\d+)$", st)
+                    if syn == "xer" and mt and int(mt.group(1)) + 1 == int(mt.group(2)):
+                        continue
+                    run.violation("oracle:opentype_roundtrip(nested,%s)" % syn, dict(replay, what="encode-then-decode of nested frames: " + st))
     # XER: the identifier text replaced in the C's own canonical XER
     lines, meta = [], []
     for c in live:
@@ -371,18 +695,20 @@ def check_module(run, rng, model, m, tier):
             continue
         own = "<id>%s</id>" % id_xer(kind, c["row"]["id"])
         if own not in c["xer"]:
-            run.violation("oracle:xer_shape", {"module": m["text"], "what": "identifier element not found in the XER output", "xer": c["xer"][:400]})
+            run.violation("oracle:xer_shape", {"module": m["text"], "options": m["opts"], "what": "identifier element not found in the XER output", "xer": c["xer"][:400]})
             continue
-        others = [(r["id"], r) for r in rows_live if r is not c["row"]][:3] + [(unknown[0], None)]
-        for oid_, r in others[:2 if tier == "quick" else 4]:
+        others = [(r["id"], r) for r in rows_live if r is not c["row"]][:3] + ([(unknown[0], None)] if kind != "enum" else [])
+        if intlike and kind != "enum" and derived:
+            others.insert(1, (rng.choice(derived), None))
+        for oid_, r in others[:(2 if tier == "quick" else 4) if full else 1]:
             t = c["xer"].replace(own, "<id>%s</id>" % id_xer(kind, oid_))
             lines.append("dec Frame xer %s" % t.encode("latin-1").hex())
             meta.append((c, r))
     co, crashes = crun(run, m, lines, "mismatch-xer")
     for i, (l, o, (c, r)) in enumerate(zip(lines, co, meta)):
-        run.case(l)
+        run.case(fs + " " + l)
         run.count("mismatch_xer_" + ("cross" if r else "noid"))
-        replay = {"module": m["text"], "mismatch": "xer", "selected_row": r["types"] if r else None, "xer_of": c["row"]["types"], "command_line": l, "c": o}
+        replay = {"module": m["text"], "options": m["opts"], "mismatch": "xer", "selected_row": r["types"] if r else None, "xer_of": c["row"]["types"], "command_line": l, "c": o}
         if o == "CRASH":
             run.violation("crash:mismatch-xer", dict(replay, what="XER decoder crashed on an identifier/value mismatch", stderr_tail=crashes.get(i, "")[-2500:]))
         elif o.startswith("OK"):
@@ -390,10 +716,10 @@ def check_module(run, rng, model, m, tier):
             run.violation("oracle:opentype_mismatch_fails(xer)", dict(replay, what="XER value of one row accepted under another row's (or no row's) identifier"))
     # raw mutations: clean failure or a usable result
     lines = []
-    nm = 40 if tier == "quick" else 300
+    nm = (40 if tier == "quick" else 300) if full else 8
     for _ in range(nm):
         c = rng.choice(live)
-        if rng.chance(1, 2):
+        if rng.chance(1, 2) or not use_uper:
             lines.append("dec Frame ber %s" % mutate(rng, c["der"]))
         elif "xer" in c and rng.chance(1, 3):
             lines.append("dec Frame xer %s" % mutate(rng, c["xer"].encode("latin-1").hex()))
@@ -402,12 +728,60 @@ def check_module(run, rng, model, m, tier):
     lines = sorted(set(lines))
     co, crashes = crun(run, m, lines, "mutation")
     for i, (l, o) in enumerate(zip(lines, co)):
-        run.case(l)
+        run.case(fs + " " + l)
         run.count("mutation_" + o.split()[0])
         if o == "CRASH":
-            run.violation("crash:mutation", {"module": m["text"], "what": "decoder crashed on a mutated encoding", "command_line": l, "stderr_tail": crashes.get(i, "")[-2500:]})
+            run.violation("crash:mutation", {"module": m["text"], "options": m["opts"], "what": "decoder crashed on a mutated encoding", "command_line": l, "stderr_tail": crashes.get(i, "")[-2500:]})
         elif not re.match(r"(OK|FAIL|MORE) \d+ \S+ ck=-?\d+$", o):
-            run.violation("oracle:mutation", {"module": m["text"], "what": "unexpected driver output on a mutated encoding", "command_line": l, "c": o})
+            run.violation("oracle:mutation", {"module": m["text"], "options": m["opts"], "what": "unexpected driver output on a mutated encoding", "command_line": l, "c": o})
+
+
+# option sets that change the representation of the object-set table, of the identifier member or of the open-type holder
+# (name, options, which modules: all | simple = the modules whose row types cannot clash without -fcompound-names)
+FLAGSETS = {
+    "quick": [("cn", ("-fcompound-names",), "all"), ("wide", ("-fwide-types", "-fcompound-names"), "all"),
+              ("plain", (), "simple"), ("wplain", ("-fwide-types",), "simple")],
+    "thorough": [("cn", ("-fcompound-names",), "all"), ("wide", ("-fwide-types", "-fcompound-names"), "all"),
+                 ("plain", (), "all"), ("wplain", ("-fwide-types",), "all"),
+                 ("ind", ("-findirect-choice", "-fcompound-names"), "all"), ("noper", ("-no-gen-PER", "-fcompound-names"), "all"),
+                 ("nooer", ("-no-gen-OER", "-fcompound-names"), "all"), ("wi", ("-fwide-types", "-fcompound-names", "-findirect-choice"), "all")],
+}
+
+
+def corpus(rng, tier):
+    """(module, primary option set) list; a module is checked in full under its primary option set and lightly under the others"""
+    g = C18Gen(rng)
+    q = tier == "quick"
+    mods = []
+    nreg = 6 if q else 40
+    for i in range(nreg):
+        # every other regular module draws its identifiers from what -fwide-types accepts, so that it is checked (not just refused) there
+        smallpool = i % 2 == 1
+        mods.append((g.module("M%d" % i, idpool=WIDE_IDS if smallpool else None), "wide" if smallpool and i % 4 == 3 else "cn"))
+    # identifiers at the representation boundaries, ascending / descending / shuffled; more than 16 rows
+    orders = [rng.choice(["asc", "desc", None])] if q else ["asc", "desc", None]
+    for i, o in enumerate(orders):
+        mods.append((g.module("MB%d" % i, ids=sorted(BOUNDARY_IDS) if o == "asc" else sorted(BOUNDARY_IDS, reverse=True) if o == "desc" else rng.shuffle(BOUNDARY_IDS),
+                              ncols=1, simple=True, untagged=False), "cn"))
+    orders = [rng.choice(["asc", "desc", None])] if q else ["asc", "desc", None]
+    for i, o in enumerate(orders):
+        ids = WIDE_BOUNDARY_IDS + rng.shuffle([x for x in WIDE_IDS if x not in WIDE_BOUNDARY_IDS])[:10]
+        ids = sorted(ids) if o == "asc" else sorted(ids, reverse=True) if o == "desc" else rng.shuffle(ids)
+        mods.append((g.module("MW%d" % i, ids=ids, ncols=1, simple=True, untagged=False), "wide"))
+    for i in range(2 if q else 4):
+        mods.append((g.module("ME%d" % i, idkind="enum", idpool=ENUM_IDS if i % 2 == 0 else [x for x in ENUM_IDS if 0 <= x <= 32767], untagged=False),
+                     "cn" if i % 2 == 0 else "wide"))
+    for i in range(1 if q else 3):
+        mods.append((g.module("MS%d" % i, samecol=True, idpool=WIDE_IDS, untagged=False), "wide" if i % 2 == 0 else "cn"))
+    mods += [(g.module("MU%d" % i, untagged=True, idpool=WIDE_IDS if i % 2 else None), "cn") for i in range(1 if q else 4)]
+    mods += [(g.module("MO%d" % i, idkind="oid", untagged=False), "cn") for i in range(1 if q else 4)]
+    mods += [(g.module("ML0", lone=True, nrows=1, untagged=False), "cn")]
+    mods += [(g.module("ML%d" % i, lone=True, untagged=False, idpool=WIDE_IDS if i % 2 == 0 else None), "cn") for i in range(1, 2 if q else 5)]
+    if not q:
+        # many rows (presence index beyond one octet)
+        mods.append((g.module("MX0", ids=[7 * i for i in range(300)], ncols=1, simple=True, untagged=False), "wide"))
+        mods.append((g.module("MX1", ids=rng.shuffle([109 * i - 9000 for i in range(40)]), ncols=2, simple=True, untagged=False), "cn"))
+    return mods
 
 
 def main(tier):
@@ -425,55 +799,91 @@ def main(tier):
         run.violation("proof:Properties_C18", {"what": "Coq development does not build or an obligation is open",
                                                "log_tail": (out if not ok else plog)[-2000:], "grep_gate": gate}, no_input=True)
     model = model_build()
-    g = C18Gen(rng)
-    nreg = 8 if tier == "quick" else 40
-    mods = [g.module("M%d" % i) for i in range(nreg)]
-    mods += [g.module("MU%d" % i, untagged=True) for i in range(1 if tier == "quick" else 4)]
-    mods += [g.module("MO%d" % i, idkind="oid", untagged=False) for i in range(1 if tier == "quick" else 4)]
-    mods += [g.module("ML0", lone=True, nrows=1, untagged=False)] + [g.module("ML%d" % i, lone=True, untagged=False) for i in range(1, 2 if tier == "quick" else 5)]
-    probes = [{"name": t.split()[0], "text": t, "defs": [("Frame", None)], "probe": fid} for fid, t in PROBES.items()]
-    probes.append({"name": "PR1", "text": PR1, "defs": [("Frame", None)], "probe": None})
-    try:
-        build_modules(mods + probes, tag="c18", moddrv_extra=EXTRA)
-    except BuildError as e:
-        run.violation("build", {"what": str(e)[-2500:]}, no_input=True)
-        return run.finish("proof", (nthm, ndis))
-    for p in probes:
-        run.case("build " + p["name"])
-        if p["probe"] is None:
-            if p.get("exe"):
-                probe_optional_open_type(run, p)
+    base = corpus(rng, tier)
+    probes0 = [{"name": t.split()[0], "text": t, "defs": [("Frame", None)], "probe": fid} for fid, t in PROBES.items()]
+    probes0 += [{"name": n, "text": t, "defs": [("Frame", None)], "probe": None} for n, t in (("PR1", PR1), ("PR2", PR2), ("PR3", PR3), ("PR4", PR4))]
+    built = []
+    for fs, opts, which in FLAGSETS[tier]:
+        rep = "wide" if "-fwide-types" in opts else "native"
+        info = {"fs": fs, "opts": " ".join(opts) or "(none)", "rep": rep, "per": "-no-gen-PER" not in opts}
+        mods = [dict(m, primary=(prim == fs), **info) for m, prim in base if which == "all" or m["simple"]]
+        # the build-level probes do not depend on the options; the run-time probes do (PR2 under both representations)
+        probes = [dict(p, **info) for p in probes0 if fs == "cn" or (p["name"] in ("PR2", "PR3", "PR4") and fs == "wide")]
+        try:
+            build_modules(mods + probes, tag="c18_" + fs, opts=opts, moddrv_extra=EXTRA)
+        except BuildError as e:
+            run.violation("build", {"what": str(e)[-2500:], "options": info["opts"]}, no_input=True)
+            return run.finish("proof", (nthm, ndis))
+        built.append((mods, probes))
+    nmods = 0
+    for mods, probes in built:
+        for p in probes:
+            run.case("%s build %s" % (p["fs"], p["name"]))
+            if p["name"] == "PR3":
+                probe_inline_frame(run, p)
+            elif p["name"] == "PR4":
+                probe_rep_mismatch(run, p)
+            elif p["probe"] is None:
+                if p.get("exe"):
+                    (probe_optional_open_type if p["name"] == "PR1" else probe_id_after_open_type)(run, p)
+                else:
+                    run.violation("build:module", {"what": "a run-time probe module does not build", "module": p["text"], "options": p["opts"],
+                                                   "asn1c_out": p.get("asn1c_out", "")[-1500:], "build_log": p.get("build_log", "")[-1500:]})
+            elif p.get("exe"):
+                run.count("probe_builds")
             else:
-                run.violation("build:module", {"what": "the probe module with an OPTIONAL open-type member does not build", "module": p["text"],
-                                               "asn1c_out": p.get("asn1c_out", "")[-1500:], "build_log": p.get("build_log", "")[-1500:]})
-        elif p.get("exe"):
-            run.count("probe_builds")
-        else:
-            run.known_finding(p["probe"], p["name"])
-    for m in mods:
-        run.count("modules_%s%s%s" % (m["idkind"], "_untagged" if m["untagged"] else "", "_lone" if m["lone"] else ""))
-        run.count("rows_%d" % len(m["rows"]))
-        run.count("cols_%d" % m["ncols"])
-        run.count("set_" + ("extensible" if m["ext"] else "closed"))
-        if not m.get("exe"):
-            run.violation("build:module", {"what": "asn1c rejected a generated class/object-set module or its output does not compile",
-                                           "module": m["text"], "asn1c_rc": m.get("asn1c_rc"), "asn1c_out": m.get("asn1c_out", "")[-1500:],
-                                           "build_log": m.get("build_log", "")[-1500:]})
-            continue
-        check_module(run, rng, model, m, tier)
+                run.known_finding(p["probe"], p["name"])
+        for m in mods:
+            nmods += 1
+            run.count("modules_%s_%s%s%s" % (m["fs"], m["idkind"], "_untagged" if m["untagged"] else "", "_lone" if m["lone"] else ""))
+            run.count("rows_%d" % len(m["rows"]) if len(m["rows"]) <= 8 else "rows_9+")
+            run.count("members_%d%s" % (len(m["mcols"]), "_samecol" if len(set(m["mcols"])) < len(m["mcols"]) else ""))
+            run.count("set_" + ("extensible" if m["ext"] else "closed"))
+            run.count("idfield_" + ("%s_%d..%d" % ((m["idkind"],) + m["idcon"]) if m["idcon"] else m["idkind"]))
+            run.case("%s build %s" % (m["fs"], m["name"]))
+            replay = {"module": m["text"], "options": m["opts"], "asn1c_rc": m.get("asn1c_rc"), "asn1c_out": m.get("asn1c_out", "")[-1500:],
+                      "build_log": m.get("build_log", "")[-1500:]}
+            if wide_rep(m):
+                # the model's emitter and the compiler must refuse the same sets (identifiers outside 0..32767), the compiler with a diagnostic
+                mref = mrun(model, ["c18cells " + frame_tokens(m, "wide")])[0] == "REFUSED"
+                if mref != wide_refuses(m):
+                    run.violation("model:OpenTypeCell.emit_table", dict(replay, what="the model's INTEGER_t emitter and the rule 0..32767 disagree"), no_input=True)
+                if mref:
+                    run.count("wide_refused")
+                    if m.get("asn1c_rc") == 0:
+                        run.violation("correspondence:OpenTypeCell.emit_table",
+                                      dict(replay, what="asn1c emitted INTEGER_t identifier cells for a set the model's emitter refuses (an identifier outside 0..32767)"))
+                    elif m.get("asn1c_rc", 0) < 0 or "Unsupported value" not in m.get("asn1c_out", ""):
+                        run.violation("oracle:clean_refusal", dict(replay, what="asn1c did not refuse an unsupported identifier value with its diagnostic (signal, or no message)"))
+                    continue
+            if m.get("asn1c_rc") == 70 and "-fcompound-names" not in m["opts"] and 'Use "-fcompound-names" flag' in m.get("asn1c_out", ""):
+                run.count("skipped_name_clash_without_compound_names")       # a clean refusal with advice; the same module is checked under the other sets
+                continue
+            if not m.get("exe"):
+                run.violation("build:module", dict(replay, what="asn1c rejected a generated class/object-set module or its output does not compile"))
+                continue
+            if rep_mismatch(m):
+                # type-confused generated code has no faithful model: the recorded defect, as long as no row is ever selected
+                outs, crashes, leak = run_resilient(m["exe"], ["sel Frame %s" % id_universal_der(m["idkind"], r["id"]).hex() for r in comp_rows(m)])
+                if all(re.match(r"0:-:-( 0:-:-)*$", o) for o in outs) and not crashes:
+                    run.known_finding("C18-identifier-representation-mismatch", m["name"])
+                else:
+                    run.violation("correspondence:OpenType.select", dict(replay, what="identifier member and cells have different C representations and the selector answers", c=outs[:6]))
+                continue
+            check_module(run, rng, model, m, tier, "full" if m["primary"] else "light")
     tb = ["Coq 8.16.1 kernel; vm_compute for refuted witnesses and Examples",
           "axioms under Print Assumptions: " + (", ".join(sorted(axioms)) or "none (Closed under the global context)"),
           "extraction: ExtrOcamlBasic only, per-area files; OCaml 4.13.1; zarith for I/O",
-          "lib/c18_util.py (module generator; effective tags of the frame members and the object-set structure given to the model), lib/modgen.py",
+          "lib/c18_util.py (module generator; effective tags of the frame members and the object-set structure given to the model; reader of the generated asn_IOS_* tables), lib/modgen.py",
           "harness/moddrv.c + harness/moddrv_c18.inc (`sel` reaches the generated selector through the member table), lib/modbuild.py; gcc + ASan/UBSan/LSan",
           "XER is not modelled: XER round trips and mismatches are evaluated on the C alone"]
     return run.finish("proof", (nthm, ndis), trusted_base=tb,
                       checker_cmd="make -C /verif all && coqc -Q coq A1 coq/Props/Properties_C18.v",
-                      extra_cov={"theorems": names, "modules": len(mods),
-                                 "rule": "one case = one driver command: selector probe, decode of a valid frame (BER/UPER), encoder output, round-trip battery, one mismatch or one mutated encoding; all distinct",
+                      extra_cov={"theorems": names, "modules": nmods, "option_sets": [" ".join(o) or "(none)" for _, o, _ in FLAGSETS[tier]],
+                                 "rule": "one case = one driver command under one option set: table read-back, selector probe, decode of a valid frame (BER/UPER), encoder output, round-trip battery, one mismatch, one nested frame or one mutated encoding; all distinct",
                                  "traces_validated_against_impl": run.cov["evaluations"]},
-                      assumptions=["theorems cover the selector and DER/BER of a frame SEQUENCE { id, open-type members }; UPER is modelled and tied, not proved; XER is tied on the C alone",
-                                   "row types are named types of the modelled algebra; identifiers are INTEGER or OBJECT IDENTIFIER values; the identifier member precedes the open-type members",
+                      assumptions=["theorems cover the selector, the encoding of identifier cells and DER/BER of a frame SEQUENCE { id, open-type members }; UPER is modelled and tied, not proved; XER is tied on the C alone",
+                                   "row types are named types of the modelled algebra; identifiers are INTEGER, ENUMERATED or OBJECT IDENTIFIER values; the identifier member precedes the open-type members (the other order is a recorded finding, probe PR2)",
                                    "leaks are observed by LeakSanitizer at process exit, not proved"])
 
 
